@@ -50,6 +50,7 @@ const STAGES: &[(&str, StageFn)] = &[
     ("c07.cli", c07::cli),
     ("c08.lib", c08::lib),
     ("c08.cli", c08::cli),
+    ("c08.big", c08::big),
     ("c09.exhaustive", c09::exhaustive),
     ("c09.random", c09::random),
     ("c10.lib", c10::lib),
